@@ -44,7 +44,7 @@ def plan(pid, tier, seed):
         return {"jobs": world_jobs(["mixed", "reserve"], tier, seed, 120, 40000), "trusted_base": WORLD_TRUST,
                 "assumptions": ["ids resurrected by spawn_at with a lower generation are excepted (documented hazard)"]}
     if pid == "C03":
-        return {"jobs": world_jobs(["mixed", "malformed", "batch"], tier, seed, 100, 40000), "trusted_base": WORLD_TRUST}
+        return {"jobs": world_jobs(["mixed", "malformed", "batch", "containers"], tier, seed, 100, 40000), "trusted_base": WORLD_TRUST}
     if pid == "C10":
         return {"jobs": world_jobs(["mixed", "containers"], tier, seed, 150, 40000), "trusted_base": WORLD_TRUST,
                 "assumptions": ["bundle representations are exercised through tuples in several field orders, dynamic EntityBuilder bundles, "
